@@ -19,7 +19,7 @@
    part") implies it (entry_neg_not_pos); the two differ only at points that lie ON a part. *)
 From Coq Require Import List ZArith Bool Reals Lra Nsatz.
 From T4V Require Import Base.Scalar C04.Vec C04.Model C04.Spec C04.ProofsFrame C04.ProofsMatrix
-  C04.ProofsCompose C04.ProofsTree.
+  C04.ProofsCompose C04.ProofsTree C04.ProofsCard.
 From T4V Require Import C05.Model C05.Spec C05.Proofs.
 Import ListNotations.
 Open Scope R_scope.
@@ -333,3 +333,100 @@ Proof.
   split; [vm_compute; reflexivity|]. split; [vm_compute; reflexivity|].
   split; vm_compute; reflexivity.
 Qed.
+
+(* ---- the precedence rule over real numbers, for a FILL transformation written as twelve numbers
+   with exactly orthonormal, clip-ok rows (the case in which C04_inline_12 shows that the parser
+   returns the numbers themselves) ------------------------------------------------------------------ *)
+Lemma rows_orthonormal_dec : forall b : M3 R, {rows_orthonormal b} + {~ rows_orthonormal b}.
+Proof.
+  intros b. unfold rows_orthonormal.
+  destruct (Req_EM_T (dot (vx b) (vx b)) 1); [|right; tauto].
+  destruct (Req_EM_T (dot (vy b) (vy b)) 1); [|right; tauto].
+  destruct (Req_EM_T (dot (vz b) (vz b)) 1); [|right; tauto].
+  destruct (Req_EM_T (dot (vx b) (vy b)) 0); [|right; tauto].
+  destruct (Req_EM_T (dot (vy b) (vz b)) 0); [|right; tauto].
+  destruct (Req_EM_T (dot (vz b) (vx b)) 0); [|right; tauto].
+  left. tauto.
+Qed.
+
+Definition id_motion : motion := MRigid (mkV 0 0 0) idm3 idm3_orthonormal.
+
+(* tuple(...) of twelve real numbers as a motion; anything else that is not empty is given an
+   arbitrary non-empty motion (only its truthiness matters there) *)
+Definition motion_of_reals (l : list R) : motion :=
+  match l with
+  | nil => MEmpty
+  | cons o1 (cons o2 (cons o3 (cons b1 (cons b2 (cons b3 (cons b4 (cons b5 (cons b6
+      (cons b7 (cons b8 (cons b9 nil))))))))))) =>
+      let b := mkV (mkV b1 b2 b3) (mkV b4 b5 b6) (mkV b7 b8 b9) in
+      match rows_orthonormal_dec b with
+      | left H => MRigid (mkV o1 o2 o3) b H
+      | right _ => id_motion
+      end
+  | _ => id_motion
+  end.
+
+Lemma motion_of_reals_empty : forall l,
+  m_empty (motion_of_reals l) = match l with nil => true | _ => false end.
+Proof.
+  intros l. unfold motion_of_reals.
+  do 12 (destruct l as [|? l]; [reflexivity|]). destruct l; [|reflexivity].
+  destruct (rows_orthonormal_dec _); reflexivity.
+Qed.
+
+Lemma motion_of_reals_tr12 : forall o b p, rows_orthonormal b ->
+  m_inv (motion_of_reals (tr12 o b)) p = to_aux o b p.
+Proof.
+  intros [o1 o2 o3] [[b1 b2 b3] [b4 b5 b6] [b7 b8 b9]] p Hb.
+  unfold tr12, vlist, mlist, vlist. cbn [app vx vy vz motion_of_reals].
+  destruct (rows_orthonormal_dec _) as [H|H]; [reflexivity | contradiction].
+Qed.
+
+Section PrecedenceLinked.
+Variable val : Z -> R.                         (* the number a token stands for *)
+Variable norm : bool -> list Z -> list Z.      (* tokens of what normalize_transform returns *)
+Variable trs : list (Z * list R).
+Variable trid0 : Z.
+(* [norm] is the token image of C04's model of the FILL parser *)
+Hypothesis norm_image : forall star ps l,
+  parse_fill_tr RS star (map val ps) trs trid0 = C04.Model.Ok l -> map val (norm star ps) = l.
+Hypothesis norm_nonempty : forall star ps, norm star ps <> nil.
+
+Definition mk_v (l : list Z) : motion := motion_of_reals (map val l).
+
+Lemma mk_v_tuple_law : forall l, m_empty (mk_v l) = match l with nil => true | _ => false end.
+Proof. intros l. unfold mk_v. rewrite motion_of_reals_empty. destruct l; reflexivity. Qed.
+
+Theorem precedence_located_linked :
+  forall table mat rho geom imp u univ trid params trcl (cl : cell motion)
+         (s : x_state) du key p c r (o : R3) (b : M3 R),
+  (forall k cd, dget k table = Some cd -> cd <> nil) ->
+  cell_of_keywords motion mk_v norm table mat rho geom imp u (Some (false, univ, trid, params)) trcl
+    = Ok cl ->
+  map val params = tr12 o b -> rows_orthonormal b -> clip_ok_m b ->
+  dget key (s_cells s) = Some cl ->
+  LocW motion wfentry R3 m_empty m_inv m_sense s du key p (key :: c :: r) true ->
+  LocW motion wfentry R3 m_empty m_inv m_sense s du c (to_aux o b p) (c :: r) true.
+Proof.
+  intros table mat rho geom imp u univ trid params trcl cl s du key p c r o b
+         Htab Hcl Hval Hb Hclip Hk HL.
+  assert (Hne : params <> nil).
+  { intros ->. destruct o, b as [[? ? ?] [? ? ?] [? ? ?]]; discriminate Hval. }
+  destruct (precedence_located motion wfentry R3 m_empty m_inv m_sense mk_v norm
+              mk_v_tuple_law norm_nonempty table mat rho geom imp u false univ trid params trcl cl
+              s du key p c r Htab Hcl Hk HL) as [Hex _].
+  destruct (Hex Hne) as (lf & Elf & _ & HLoc).
+  (* twelve numbers: the keyword goes through normalize_transform *)
+  assert (Hlf : lf = norm false params).
+  { unfold kw_tuple, parse_tr_params in Elf.
+    assert (Hlen : List.length params = 12%nat).
+    { rewrite <- (map_length val), Hval. destruct o, b as [[? ? ?] [? ? ?] [? ? ?]]. reflexivity. }
+    do 12 (destruct params as [|? params]; [discriminate Hlen|]). destruct params; [|discriminate Hlen].
+    inversion Elf. reflexivity. }
+  subst lf.
+  destruct (inline_12 o b trs trid0 Hb Hclip) as (_ & _ & E12).
+  rewrite <- Hval in E12 at 1. pose proof (norm_image false params _ E12) as Himg.
+  change (vlist o ++ mlist b) with (tr12 o b) in Himg.
+  unfold mk_v in HLoc. rewrite Himg, (motion_of_reals_tr12 o b p Hb) in HLoc. exact HLoc.
+Qed.
+End PrecedenceLinked.
